@@ -295,11 +295,61 @@ class Func:
         return None
 
     # -- path search --------------------------------------------------------
-    def forward_paths_hit(self, starts, targets, blockers=(), stop_at_targets=True):
+    def _bool_locals(self):
+        """bool locals that are only ever assigned `const true/false` or a copy
+        of another such local (flags like `done`); tracked path-sensitively."""
+        if getattr(self, '_bl', None) is not None:
+            return self._bl
+        cand = {i for i, l in enumerate(self.locals) if l['ty'] == 'bool'}
+        ok = {}
+        changed = True
+        bad = set()
+        for b, blk in enumerate(self.blocks):
+            t = blk['term']
+            if t['k'] == 'call' and not t['dest']['p'] and t['dest']['l'] in cand:
+                bad.add(t['dest']['l'])
+            for s in blk['stmts']:
+                if s['k'] != 'assign':
+                    continue
+                if s['lhs']['p']:
+                    continue
+                l = s['lhs']['l']
+                if l not in cand:
+                    continue
+                rv = s['rv']
+                if rv['k'] == 'use' and rv['op'].get('k') == 'const' and rv['op'].get('ty') == 'bool':
+                    continue
+                if rv['k'] == 'use' and 'l' in rv['op'] and not rv['op']['p'] and rv['op']['l'] in cand:
+                    continue
+                bad.add(l)
+        # args are unknown; so is anything whose address is taken
+        for i in range(1, self.nargs + 1):
+            bad.add(i)
+        for b, blk in enumerate(self.blocks):
+            for s in blk['stmts']:
+                if s['k'] == 'assign' and s['rv']['k'] in ('ref', 'rawptr') and s['rv']['place']['l'] in cand:
+                    bad.add(s['rv']['place']['l'])
+        # propagate badness through copies
+        while changed:
+            changed = False
+            for b, blk in enumerate(self.blocks):
+                for s in blk['stmts']:
+                    if s['k'] == 'assign' and not s['lhs']['p'] and s['lhs']['l'] in cand and s['lhs']['l'] not in bad:
+                        rv = s['rv']
+                        if rv['k'] == 'use' and 'l' in rv['op'] and rv['op']['l'] in bad:
+                            bad.add(s['lhs']['l'])
+                            changed = True
+        self._bl = cand - bad
+        return self._bl
+
+    def forward_paths_hit(self, starts, targets, blockers=(), stop_at_targets=True, track_bools=True):
         """Location-level forward search over normal edges.
         Returns the first target location reachable from any start without
         crossing a blocker location (a blocker stops the path *at* it), plus the
-        path (list of bbs).  None if no target reachable."""
+        path (list of bbs).  None if no target reachable.
+        With track_bools, bool locals that only hold constants are tracked along
+        the path so that `let done = if c {true} else {false}; if done {..}` does
+        not create infeasible paths."""
         targets = set(targets)
         blockers = set(blockers)
         tb = defaultdict(list)
@@ -308,16 +358,18 @@ class Func:
         bl = defaultdict(list)
         for t in blockers:
             bl[t[0]].append(t[1])
+        tracked = self._bool_locals() if track_bools else set()
         seen = set()
         dq = deque()
         for s in starts:
-            dq.append((s[0], s[1], (s[0],)))
+            dq.append((s[0], s[1], (s[0],), frozenset()))
         while dq:
-            bb, i, path = dq.popleft()
-            if (bb, i) in seen:
+            bb, i, path, env = dq.popleft()
+            if (bb, i, env) in seen:
                 continue
-            seen.add((bb, i))
-            n = len(self.blocks[bb]['stmts'])
+            seen.add((bb, i, env))
+            stmts = self.blocks[bb]['stmts']
+            n = len(stmts)
             cands = [x for x in tb.get(bb, []) if x >= i]
             blks = [x for x in bl.get(bb, []) if x >= i]
             first_t = min(cands) if cands else None
@@ -326,9 +378,32 @@ class Func:
                 return Loc(bb, first_t), list(path)
             if first_b is not None:
                 continue
-            for s in self.succ[bb]:
-                if (s, 0) not in seen:
-                    dq.append((s, 0, path + (s,)))
+            if tracked:
+                envd = dict(env)
+                for k in range(i, n):
+                    s = stmts[k]
+                    if s['k'] == 'assign' and not s['lhs']['p'] and s['lhs']['l'] in tracked:
+                        rv = s['rv']
+                        if rv['k'] == 'use' and rv['op'].get('k') == 'const':
+                            envd[s['lhs']['l']] = const_val(rv['op'])
+                        elif rv['k'] == 'use' and 'l' in rv['op'] and rv['op']['l'] in envd:
+                            envd[s['lhs']['l']] = envd[rv['op']['l']]
+                        else:
+                            envd.pop(s['lhs']['l'], None)
+                env2 = frozenset(envd.items())
+            else:
+                envd = {}
+                env2 = env
+            succs = self.succ[bb]
+            t = self.blocks[bb]['term']
+            if tracked and t['k'] == 'switch' and 'l' in t['discr'] and not t['discr']['p'] and t['discr']['l'] in envd:
+                v = envd[t['discr']['l']]
+                vals = {int(x): tgt for x, tgt in t['targets']}
+                only = vals.get(v, t['otherwise'])
+                succs = [x for x in succs if x == only]
+            for s in succs:
+                if (s, 0, env2) not in seen:
+                    dq.append((s, 0, path + (s,), env2))
         return None
 
     def reachable_locs(self, starts, blockers=()):
@@ -720,6 +795,7 @@ class Facts:
         self.traits = {t['path']: t for t in self.j['traits']}
         self.impls = self.j['impls']
         self.consts = {c['path']: c for c in self.j['consts']}
+        self.layouts = {k: (sz, al) for k, sz, al in self.j.get('layouts', [])}
         self._callers = None
 
     def fn(self, path):
@@ -810,3 +886,151 @@ def rvalue_places(rv):
     if rv['k'] in ('ref', 'rawptr', 'discr'):
         out.append(rv['place'])
     return out
+
+
+# ---------------------------------------------------------------------------
+# more CFG helpers
+# ---------------------------------------------------------------------------
+
+def _const_bool_block(f, bb):
+    """block `bb` is exactly `_x = const true|false; goto J` (ignoring drop-flag
+    bookkeeping) -> (x, value, J) else None"""
+    blk = f.blocks[bb]
+    if blk['term']['k'] != 'goto':
+        return None
+    found = None
+    for s in blk['stmts']:
+        if s['k'] != 'assign' or s['lhs']['p']:
+            return None
+        rv = s['rv']
+        if rv['k'] == 'use' and rv['op'].get('k') == 'const' and rv['op'].get('ty') == 'bool':
+            found = (s['lhs']['l'], const_val(rv['op']), blk['term']['target'])
+        elif rv['k'] == 'use' and rv['op'].get('k') == 'const' and rv['op'].get('ty') == '()':
+            continue
+        else:
+            return None
+    return found
+
+
+def effective_edge(f, edge):
+    """If the target of `edge` only materialises a bool that the join block
+    immediately switches on (the `matches!` lowering), return the edge out of
+    the join for that value; otherwise the edge itself."""
+    cb = _const_bool_block(f, edge[1])
+    if cb is None:
+        return edge
+    x, val, j = cb
+    t = f.term(j)
+    if t['k'] != 'switch' or not is_local(t['discr'], x):
+        return edge
+    # every other definition of x must also be a const-bool block jumping to j
+    for loc, kind, payload in f.defs.get(x, []):
+        if f.blocks[loc[0]]['cleanup']:
+            continue
+        cb2 = _const_bool_block(f, loc[0])
+        if cb2 is None or cb2[2] != j:
+            return edge
+    vals = {int(v): tgt for v, tgt in t['targets']}
+    tgt = vals.get(val, t['otherwise']) if val in vals else (t['otherwise'] if val != 0 or 0 not in vals else vals[0])
+    if val == 0:
+        tgt = vals.get(0, t['otherwise'])
+    else:
+        tgt = vals.get(1, t['otherwise'])
+    return (j, tgt)
+
+
+def variant_edges(f, adt, variant, place_pred=None, cleanup=False):
+    """all effective edges taken when a value of enum `adt` is `variant`;
+    returns list of dict(edge, complement:[edges], si)"""
+    out = []
+    for si in f.enum_switches(adt):
+        if f.blocks[si['bb']]['cleanup'] and not cleanup:
+            continue
+        if place_pred is not None and not place_pred(f, si['place']):
+            continue
+        e = f.variant_edge(si, variant)
+        if e is None:
+            continue
+        comp = []
+        for name in list(si['variants'].keys()) + list(si.get('otherwise_variants', [])):
+            if name == variant:
+                continue
+            ce = f.variant_edge(si, name)
+            if ce and ce[1] != e[1]:
+                ee = effective_edge(f, ce)
+                if ee not in comp:
+                    comp.append(ee)
+        out.append({'edge': effective_edge(f, e), 'raw': e, 'complement': comp, 'si': si})
+    return out
+
+
+def bool_call_switches(f, callee_pred):
+    """switches whose discriminant is (a copy of) the result of a call matching
+    callee_pred: list of dict(bb, call_loc, true, false)"""
+    out = []
+    for b, blk in enumerate(f.blocks):
+        t = blk['term']
+        if blk['cleanup'] or t['k'] != 'switch' or 'l' not in t['discr'] or t['discr']['p']:
+            continue
+        l = t['discr']['l']
+        seen = set()
+        while True:
+            d = f.single_def(l)
+            if d is None or l in seen:
+                d = None
+                break
+            seen.add(l)
+            loc, kind, payload = d
+            if kind == 'assign' and payload['k'] == 'use' and 'l' in payload['op'] and not payload['op']['p']:
+                l = payload['op']['l']
+                continue
+            break
+        if d is None:
+            continue
+        loc, kind, payload = d
+        if kind == 'call' and callee_matches(payload, callee_pred):
+            vals = {int(v): tgt for v, tgt in t['targets']}
+            out.append({'bb': b, 'call_loc': loc, 'false': vals.get(0, t['otherwise']),
+                        'true': vals.get(1, t['otherwise']) if 1 in vals else t['otherwise']})
+    return out
+
+
+def const_switches(f, def_suffix):
+    """switches on a named (associated) constant, e.g. IS_MULTISHOT:
+    list of dict(bb, true, false)"""
+    out = []
+    for b, blk in enumerate(f.blocks):
+        t = blk['term']
+        if t['k'] != 'switch' or 'l' not in t['discr'] or t['discr']['p']:
+            continue
+        d = f.single_def(t['discr']['l'])
+        if d is None:
+            continue
+        loc, kind, payload = d
+        if kind == 'assign' and payload['k'] == 'use' and payload['op'].get('k') == 'const' \
+                and (payload['op'].get('def') or '').endswith(def_suffix):
+            vals = {int(v): tgt for v, tgt in t['targets']}
+            out.append({'bb': b, 'false': vals.get(0, t['otherwise']), 'true': vals.get(1, t['otherwise']) if 1 in vals else t['otherwise']})
+    return out
+
+
+def pruned(f, removed_edges):
+    """a view of f with some CFG edges removed (specialisation)"""
+    g = Func.__new__(Func)
+    g.__dict__.update(f.__dict__)
+    rem = set(removed_edges)
+    g._succ = [[s for s in f.normal_succ(b) if (b, s) not in rem] for b in range(len(f.blocks))]
+    g._pred = None
+    g._dom = None
+    return g
+
+
+def specialise(f, def_suffix, value):
+    """prune the CFG under `<..>::CONST == value`"""
+    rem = []
+    for cs in const_switches(f, def_suffix):
+        dead = cs['false'] if value else cs['true']
+        live = cs['true'] if value else cs['false']
+        if dead != live:
+            rem.append((cs['bb'], dead))
+    return pruned(f, rem)
